@@ -151,8 +151,12 @@ func (e *stubEnv) intrinsic(r *engine.Run, fn *ssa.Function, args []engine.Value
 			st.Inconclusive++
 		default:
 			st.Failed++
-			if st.First == nil {
-				st.First = e.counterexample(r, ps, tag, "assert", "", qr.Model)
+			if len(st.Examples) < 6 {
+				ce := e.counterexample(r, ps, tag, "assert", "", qr.Model)
+				st.Examples = append(st.Examples, ce)
+				if st.First == nil {
+					st.First = ce
+				}
 			}
 		}
 		e.res.mu.Unlock()
@@ -227,6 +231,9 @@ func (e *stubEnv) external(r *engine.Run, fn *ssa.Function, args []engine.Value,
 		if st == name {
 			return zeroResults(fn), true
 		}
+	}
+	if fn.Pkg != nil && fn.Pkg.Pkg.Path() == "github.com/dave/jennifer/jen" {
+		return jenStub(r, ps, fn, args), true
 	}
 	if m, ok := stringsModels[name]; ok {
 		// atoms: uninterpreted treatment is not available for these; only bytes-model strings
@@ -527,3 +534,39 @@ func zeroResults(fn *ssa.Function) engine.Value {
 	}
 	return engine.Zero(res)
 }
+
+// jenStub: jennifer is an opaque library: every function returns fresh opaque objects, does not
+// modify its arguments and never panics. Calls are recorded (name + arguments) on the result object.
+func jenStub(r *engine.Run, ps *pathState, fn *ssa.Function, args []engine.Value) engine.Value {
+	res := fn.Signature.Results()
+	mk := func(t types.Type) engine.Value {
+		switch u := t.Underlying().(type) {
+		case *types.Pointer, *types.Interface:
+			o := r.NewOpaque("jen." + fn.Name())
+			o.Items = args
+			if _, isIface := u.(*types.Interface); isIface {
+				return engine.Iface{T: jenDynType, V: o}
+			}
+			return o
+		case *types.Slice:
+			// e.g. jen.Statement is a slice type: treat as opaque object too
+			o := r.NewOpaque("jen." + fn.Name())
+			o.Items = args
+			return o
+		}
+		return engine.Zero(t)
+	}
+	switch res.Len() {
+	case 0:
+		return nil
+	case 1:
+		return mk(res.At(0).Type())
+	}
+	tu := make(engine.Tuple, res.Len())
+	for i := range tu {
+		tu[i] = mk(res.At(i).Type())
+	}
+	return tu
+}
+
+var jenDynType = types.NewNamed(types.NewTypeName(0, nil, "verifJenCode", nil), types.Typ[types.Int], nil)
